@@ -119,7 +119,7 @@ func (p *Prog) ResolveAnchors() *Anchors {
 		}
 		funcInstrs(fn, func(in ssa.Instruction) {
 			if c, ok := in.(*ssa.Call); ok && !c.Call.IsInvoke() {
-				if sc := c.Call.StaticCallee(); sc != nil && sc.Name() == "add" && len(c.Call.Args) > 0 {
+				if sc := c.Call.StaticCallee(); sc != nil && sc.Name() == p.nm("add") && len(c.Call.Args) > 0 {
 					if fv, _ := loadedField(c.Call.Args[0]); fv != nil {
 						r = fv
 					}
@@ -130,7 +130,7 @@ func (p *Prog) ResolveAnchors() *Anchors {
 	}
 	a.FG = setOf(p.Func(cl, "(*Conn).Handle"))
 	a.BG = setOf(p.Func(cl, "(*Conn).HandleBG"))
-	hsT := "*" + lp + "hSet"
+	hsT := "*" + lp + p.nm("hSet")
 	for i := 0; i < a.ConnS.NumFields(); i++ {
 		f := a.ConnS.Field(i)
 		if typeString(f.Type()) == hsT && f != a.FG && f != a.BG {
@@ -262,6 +262,10 @@ func (p *Prog) isWGCall(in ssa.Instruction, wg *types.Var, method string) bool {
 // handlerTable reads a package-level map[string]HandlerFunc composite literal
 // from the package initialiser: key -> handler function.
 func (p *Prog) handlerTable(name string) map[string]*ssa.Function {
+	return p.handlerTableNamed(p.nm(name))
+}
+
+func (p *Prog) handlerTableNamed(name string) map[string]*ssa.Function {
 	g, _ := p.Client.Members[name].(*ssa.Global)
 	if g == nil {
 		return nil
@@ -345,6 +349,15 @@ func (p *Prog) EventDispatches(fn *ssa.Function, a *Anchors) []EventDispatch {
 	cmdVar := p.FieldVar(p.Client, "Line", "Cmd")
 	for _, cs := range CallSites(fn) {
 		cc := cs.Common()
+		// through an event helper: func (conn) fire(cmd string) { conn.dispatch(&Line{Cmd: cmd, ...}) }
+		if h := cc.StaticCallee(); h != nil && !cc.IsInvoke() && h != disp {
+			if idx := p.eventHelperParam(h, disp, cmdVar); idx >= 0 && idx < len(cc.Args) {
+				if c, ok := constString(cc.Args[idx]); ok {
+					out = append(out, EventDispatch{cs, c})
+				}
+			}
+			continue
+		}
 		if cc.IsInvoke() || cc.StaticCallee() != disp || len(cc.Args) < 2 {
 			continue
 		}
@@ -371,4 +384,62 @@ func (p *Prog) EventDispatches(fn *ssa.Function, a *Anchors) []EventDispatch {
 		}
 	}
 	return out
+}
+
+// eventHelperParam: h is a module function that on every path dispatches a
+// Line literal whose Cmd is its own parameter i (and does nothing else with
+// the event); returns i, or -1.
+func (p *Prog) eventHelperParam(h, disp *ssa.Function, cmdVar *types.Var) int {
+	if !p.InModuleFn(h) || h.Package() != p.Client {
+		return -1
+	}
+	if p.evHelper == nil {
+		p.evHelper = map[*ssa.Function]int{}
+	}
+	if v, ok := p.evHelper[h]; ok {
+		return v - 1
+	}
+	p.evHelper[h] = 0
+	res := -1
+	var site ssa.Instruction
+	for _, cs := range CallSites(h) {
+		cc := cs.Common()
+		if cc.IsInvoke() || cc.StaticCallee() != disp || len(cc.Args) < 2 {
+			continue
+		}
+		if _, isCall := cs.(*ssa.Call); !isCall {
+			continue
+		}
+		al, ok := cc.Args[1].(*ssa.Alloc)
+		if !ok {
+			continue
+		}
+		for _, ref := range *al.Referrers() {
+			fa, ok := ref.(*ssa.FieldAddr)
+			if !ok {
+				continue
+			}
+			if fv, _ := fieldOf(fa); fv != cmdVar {
+				continue
+			}
+			for _, r2 := range *fa.Referrers() {
+				if s, ok := r2.(*ssa.Store); ok {
+					if pr, isP := s.Val.(*ssa.Parameter); isP {
+						for i, q := range h.Params {
+							if q == pr {
+								res, site = i, cs
+							}
+						}
+					}
+				}
+			}
+		}
+	}
+	if res >= 0 {
+		if all, _ := AllPathsFromEntryPass(h, func(in ssa.Instruction) bool { return in == site }); !all {
+			res = -1
+		}
+	}
+	p.evHelper[h] = res + 1
+	return res
 }
